@@ -86,6 +86,18 @@ func c01Prop(c c01Case, r *vp.Rec) error {
 			feed = chunks
 			classes["fed-per-field"] = true
 		}
+		if c.Full && !c.PerField {
+			fs, err := dec.DecodeFull(wire)
+			if err != nil {
+				return fmt.Errorf("block %d: Decoder.DecodeFull(%x) = %v (%d fields written)", bi, wire, err, len(want))
+			}
+			if len(got) != 0 {
+				return fmt.Errorf("block %d: DecodeFull called the emit function", bi)
+			}
+			got = append(got, fs...)
+			feed = nil
+			classes["decoded-with-DecodeFull"] = true
+		}
 		for _, p := range feed {
 			n, err := dec.Write(p)
 			if err != nil {
@@ -96,8 +108,10 @@ func c01Prop(c c01Case, r *vp.Rec) error {
 				return fmt.Errorf("block %d: Decoder.Write consumed %d of %d bytes", bi, n, len(p))
 			}
 		}
-		if err := dec.Close(); err != nil {
-			return fmt.Errorf("block %d: Decoder.Close() = %v after a complete block %x", bi, err, wire)
+		if feed != nil {
+			if err := dec.Close(); err != nil {
+				return fmt.Errorf("block %d: Decoder.Close() = %v after a complete block %x", bi, err, wire)
+			}
 		}
 		if len(got) != len(want) {
 			return fmt.Errorf("block %d: decoder emitted %d fields, %d written (emitted %v)", bi, len(got), len(want), got)
